@@ -47,10 +47,10 @@ def decide (s : Sources) : Decision :=
 def selectedName (files : List (List (Option Str))) : Str :=
   ((files.flatten.filterMap id).filter (· ≠ [])).getLast?.getD []
 
-def sourcesOf (w : World) (o : PO) : Sources where
+def sourcesOf (w : World) (o : PO) (files : List (List (Option Str))) : Sources where
   explicit := o.name
   fromEnv := o.env.get cpn
-  fromFiles := match Template.subst o.env.get (selectedName w.files) with
+  fromFiles := match Template.subst o.env.get (selectedName files) with
     | .ok s => .ok s
     | _ => .error ()
   dirBase := projDir w o
